@@ -466,6 +466,15 @@ func (st *tunnelServerStream) SendMsg(m interface{}) error {
 	st.writeMu.Lock()
 	defer st.writeMu.Unlock()
 
+	if st.closed {
+		// The stream is already finished (e.g. cancelled by the client) and
+		// its close frame is on its way: nothing more may be sent for it.
+		if err := st.ctx.Err(); err != nil {
+			return err
+		}
+		return errors.New("already finished")
+	}
+
 	if !st.sentHeaders {
 		if err := st.sendHeadersLocked(); err != nil {
 			return err
